@@ -323,6 +323,29 @@ example : ({ nLocs := 32 } : LocH Nat).add 7 (some 32) false = .error .tooHigh :
 
 example : (csrHandler Nat 32 14 32 0x800).map (·.nLocs) = .ok 32 := by decide +kernel
 
+/-- The same with `reserved_csrs` / `reserved_irqs` passed to the constructor: whatever handler the constructor
+    returns for a reserved list, after any further history names and numbers are unique and in `[0, n_locs)`. -/
+theorem loc_unique_in_range_with_reserved (n : Nat) (enabled : Bool) (reserved : List (ν × Int)) (h : LocH ν)
+    (ops : List (LocOp ν)) (hh : ({ nLocs := n, enabled := enabled } : LocH ν).addAll reserved = .ok h) :
+    let s := h.run ops
+    (s.locs.map (·.1)).Nodup ∧ (s.locs.map (·.2)).Nodup ∧ ∀ p ∈ s.locs, 0 ≤ p.2 ∧ p.2 < (n : Int) := by
+  intro s
+  obtain ⟨i1, e1⟩ := LocH.addAll_inv reserved (LocH.inv_empty (ν := ν) n enabled) hh
+  obtain ⟨i2, e2⟩ := LocH.run_inv ops i1
+  refine ⟨i2.names_nodup, i2.locs_nodup, ?_⟩
+  intro p hp
+  have := i2.in_range p hp
+  rw [e2, e1] at this
+  exact this
+
+/-- Non-vacuity: reserved CSR pages are honoured; a reserved page `n_locs` makes the constructor fail; a
+    non-empty `reserved_irqs` always fails (added while the handler is disabled). -/
+example :
+    ((csrHandlerR Nat 32 14 32 0x800 [(1, 3), (2, 0)]).map fun h => (h.run [.add 5 none false, .add 6 (some 3) false]).locs)
+      = .ok [(1, 3), (2, 0), (5, 1)] ∧
+    (csrHandlerR Nat 32 14 32 0x800 [(1, 32)]) = .error .tooHigh ∧
+    (irqHandlerR Nat 32 [(1, 3)]) = .error .disabled := by decide +kernel
+
 omit [DecidableEq ν] in
 /-- The two concrete handlers are instances: a successfully constructed CSR/IRQ handler is empty, with
     `n_locs = alignment/8·2^address_width/paging` resp. `n_irqs ≤ 32`. -/
